@@ -16,50 +16,12 @@ theorem cmp_zero_of_magQ (w1 w2 : Dec) (h1 : w1.form = .finite) (h2 : w2.form = 
   have := mul_right_cancel₀ (tp _).ne' h
   exact_mod_cast this
 
-/-- the exactness re-check of `Sqrt` succeeds when the result squares to the operand and the doubled exponent is
-inside the package limits -/
-theorem mul_sq_ok (v x : Dec) (hv : v.form = .finite) (hx : x.form = .finite) (hxn : x.neg = false)
-    (hv0 : v.coeff ≠ 0) (hx0 : x.coeff ≠ 0) (hsq : (magQ v) ^ 2 = magQ x)
-    (he : -100000 ≤ v.exp) (he2 : -100000 ≤ 2 * v.exp)
-    (hxa1 : -100000 ≤ x.exp + (ndigits x.coeff : Int) - 1) (hxa2 : x.exp + (ndigits x.coeff : Int) - 1 ≤ 100000) :
-    (mulOp baseCtx v v).err = .none ∧ (mulOp baseCtx v v).d.cmp x = 0 := by
-  have hmq : magQ { form := .finite, neg := false, exp := v.exp + v.exp, coeff := v.coeff * v.coeff } = magQ x := by
-    rw [← hsq]; unfold magQ; simp only []; push_cast; rw [zpow_add₀ ten_ne]; ring
-  have hc0 : 0 < v.coeff * v.coeff := Nat.mul_pos (Nat.pos_of_ne_zero hv0) (Nat.pos_of_ne_zero hv0)
-  have hadj := adj_of_eq (v.coeff * v.coeff) x.coeff (v.exp + v.exp) x.exp hc0 (Nat.pos_of_ne_zero hx0)
-    (by unfold magQ at hmq; simpa using hmq)
-  have hnp := ndigits_pos (v.coeff * v.coeff)
-  rw [Apd.Props.mulOp_finite baseCtx v v hv hv]
-  simp only [finish]
-  have hneg : (v.neg != v.neg) = false := by cases v.neg <;> rfl
-  rw [hneg]
-  have hck : checkXs [v.exp, v.exp] = none := by
-    rw [checkXs_none_iff]; simp; omega
-  have hsum : sumInts [v.exp, v.exp] = v.exp + v.exp := by simp [sumInts]
-  have hem : baseCtx.emin = -100000 := rfl
-  have heM : baseCtx.emax = 100000 := rfl
-  have e1 : setExponent baseCtx { form := .finite, neg := false, exp := 0, coeff := v.coeff * v.coeff } {} [v.exp, v.exp] =
-      ({ form := .finite, neg := false, exp := v.exp + v.exp, coeff := v.coeff * v.coeff }, {}) := by
-    rw [setExponent_normal baseCtx _ {} _ hck (by simp [seAdj, hsum]; omega) (by simp [seAdj, hsum, hem]; omega)
-      (by simp [seAdj, hsum, heM]; omega) (by decide), hsum]
-    simp [seFinish]
-  rw [e1]
-  simp only []
-  rw [ctxRound_finite _ _ rfl]
-  unfold ctxRoundFin
-  rw [roundX_prec0 baseCtx _ rfl]
-  have hck1 : checkXs [v.exp + v.exp] = none := by
-    rw [checkXs_none_iff]; simp; omega
-  have hsum1 : sumInts [v.exp + v.exp] = v.exp + v.exp := by simp [sumInts]
-  have e2 : setExponent baseCtx { form := .finite, neg := false, exp := v.exp + v.exp, coeff := v.coeff * v.coeff } {}
-        [v.exp + v.exp] =
-      ({ form := .finite, neg := false, exp := v.exp + v.exp, coeff := v.coeff * v.coeff }, {}) := by
-    rw [setExponent_normal baseCtx _ {} _ hck1 (by simp [seAdj, hsum1]; omega) (by simp [seAdj, hsum1, hem]; omega)
-      (by simp [seAdj, hsum1, heM]; omega) (by decide), hsum1]
-    simp [seFinish]
-  rw [e2]
-  refine ⟨rfl, ?_⟩
-  exact cmp_zero_of_magQ _ x rfl hx rfl hxn hmq
+/-- the exactness re-check of `Sqrt` succeeds when the result squares to the operand (the square is formed on the
+coefficient: no exponent limit is involved) -/
+theorem mul_sq_ok (v x : Dec) (hx : x.form = .finite) (hxn : x.neg = false)
+    (hsq : (magQ v) ^ 2 = magQ x) :
+    ({ coeff := v.coeff * v.coeff, exp := 2 * v.exp } : Dec).cmp x = 0 :=
+  cmp_zero_of_magQ _ x rfl hx rfl hxn (by rw [magQ_sq, hsq])
 
 /-- a decimal whose value is a multiple of the quantum is rounded without Inexact -/
 theorem round_grid_exact {cc : Ctx} {d : Dec} (H : RHyp cc d) (M : ℕ)
@@ -122,13 +84,12 @@ theorem exact_root_facts (c : Ctx) (x d : Dec) (h : Int) (δ : ℚ) (hx0 : x.coe
   show max (d.exp + (ndigits d.coeff : ℤ) - 1 - (c.prec : ℤ) + 1) (c.emin - (c.prec : ℤ) + 1) = _
   rw [hadj]; congr 1; omega
 
-/-- **the tail on an exact root**: no Inexact, provided the doubled quantum is inside the package limits (the
-re-check multiplies the result by itself) -/
+/-- **the tail on an exact root**: no Inexact (the re-check squares the coefficient of the result, whatever its
+exponent) -/
 theorem tail_exact (c : Ctx) (x d : Dec) (h : Int) (δ : ℚ) (hc : c.WF) (hx : x.form = .finite)
-    (hxn : x.neg = false) (hx0 : x.coeff ≠ 0) (hxw : x.WF) (H : DHyp c x d h δ)
+    (hxn : x.neg = false) (hx0 : x.coeff ≠ 0) (H : DHyp c x d h δ)
     (hroot : (magQ d) ^ 2 = magQ x) (hsE : sExact c x = true)
-    (hnov : ¬ (sM c x ≠ 0 ∧ sQ c x + (ndigits (sM c x) : Int) - 1 > c.emax))
-    (hq2 : -100000 ≤ 2 * sQ c x) :
+    (hnov : ¬ (sM c x ≠ 0 ∧ sQ c x + (ndigits (sM c x) : Int) - 1 > c.emax)) :
     let r0 := ctxRound (ncw c) d
     let r1 : Dec × Cond :=
       if r0.2.inexact && r0.1.form == .finite then
@@ -139,8 +100,8 @@ theorem tail_exact (c : Ctx) (x d : Dec) (h : Int) (δ : ℚ) (hc : c.WF) (hx : 
     let r : Dec × Cond := (r2.1, r1.2 ||| r2.2)
     let res :=
       if !r.2.inexact && r.1.form == .finite then
-        let sq := mulOp baseCtx r.1 r.1
-        if sq.err != .none || sq.d.cmp x != 0 then r.2 ||| cInexact ||| cRounded else r.2
+        let sq : Dec := { coeff := r.1.coeff * r.1.coeff, exp := 2 * r.1.exp }
+        if sq.cmp x != 0 then r.2 ||| cInexact ||| cRounded else r.2
       else r.2
     (finish (nc2 c) (r.1, res)).fl.inexact = false := by
   intro r0 r1 r2 r res
@@ -182,24 +143,25 @@ theorem tail_exact (c : Ctx) (x d : Dec) (h : Int) (δ : ℚ) (hc : c.WF) (hx : 
   have hrf : r.1.form = .finite := by show r2.1.form = .finite; rw [g1]; exact G.hf
   -- the re-check
   have hsqv : (magQ r1.1) ^ 2 = magQ x := by rw [hval, ← hv, hroot]
-  have hexp : sQ c x ≤ r1.1.exp := by
-    have h1 := G.hnd
-    have h2 := G.het
-    have h3 := adj_of_eq r1.1.coeff d.coeff r1.1.exp d.exp (Nat.pos_of_ne_zero hv0) (Nat.pos_of_ne_zero H.hn)
-      (by have := hval; rw [← hv] at this; unfold magQ at this; exact this)
-    rw [H.hq]; omega
-  obtain ⟨w1, w2, w3, w4⟩ := hxw
-  obtain ⟨k1, k2⟩ := mul_sq_ok r1.1 x G.hf hx hxn hv0 hx0 hsqv G.he (by omega) w3 w4
+  have k2 := mul_sq_ok r1.1 x hx hxn hsqv
   have hres : res = r.2 := by
     show (if _ then _ else _) = _
     have c1 : (!r.2.inexact && r.1.form == .finite) = true := by simp [hrin, hrf]
     rw [if_pos c1]
     simp only []
     have hr1' : r.1 = r1.1 := g1
-    rw [hr1', k1, k2]
+    rw [hr1', k2]
     simp
   show res.inexact = false
   rw [hres]; exact hrin
+
+/-- `tail_exact` on the named halves of the tail (`C11Q.sqrt_tail_eq`) -/
+theorem tail_exact' (c : Ctx) (x d : Dec) (h : Int) (δ : ℚ) (hc : c.WF) (hx : x.form = .finite)
+    (hxn : x.neg = false) (hx0 : x.coeff ≠ 0) (H : DHyp c x d h δ)
+    (hroot : (magQ d) ^ 2 = magQ x) (hsE : sExact c x = true)
+    (hnov : ¬ (sM c x ≠ 0 ∧ sQ c x + (ndigits (sM c x) : Int) - 1 > c.emax)) :
+    (tailFin c x (tailMid c x d).1 (tailMid c x d).2).fl.inexact = false :=
+  tail_exact c x d h δ hc hx hxn hx0 H hroot hsE hnov
 
 end Apd.SqrtX
 
